@@ -37,6 +37,10 @@ type twinRun struct {
 	openIdx       uint64 // on-disk restart: what Open returned
 	raced         int
 	secondRestart bool
+	bSave         saveRec
+	cSaveAt       uint64 // C's own later snapshot (0: none)
+	lagRestart    bool
+	preUser       kv // C's user state just before the snapshot arrived
 	metaA         savedMeta
 	metaC         savedMeta
 	sessA         []byte
@@ -168,6 +172,14 @@ func runTwins(t *rapid.T) *twinRun {
 			c.addSync()
 			c.run()
 		}
+		if tr.kind == kOnDisk && tr.lagAt > 0 && rapid.IntRange(0, 2).Draw(t, "lagRestart") == 0 {
+			// C went down and came back without any snapshot of its own: raft
+			// replays from the start while the on-disk SM is at its Open index
+			c.restart(drawCrashPos(t, c, "c0"))
+			tr.lagRestart = true
+			redo := uint64(rapid.IntRange(0, int(tr.lagAt)).Draw(t, "lagRedo"))
+			feedTo(t, c, ents, redo, "c1")
+		}
 	}
 	cutc := cut{At: tr.k, Kind: "save", Hold: rapid.Bool().Draw(t, "cutHold")}
 	feedHold(t, b, ents, tr.k, "b", cutc.Hold && tr.variant != "stream")
@@ -233,6 +245,7 @@ func runTwins(t *rapid.T) *twinRun {
 				}
 			}
 		}
+		tr.preUser = c.cur.usm.state()
 		if b.streamTo(c) {
 			tr.ssIndex = b.saves[len(b.saves)-1].Index
 			tr.raced = b.saves[len(b.saves)-1].Raced
@@ -241,6 +254,9 @@ func runTwins(t *rapid.T) *twinRun {
 	}
 	tr.c = c
 	tr.cInc = c.cur
+	if tr.ssIndex > 0 {
+		tr.bSave = b.saves[len(b.saves)-1]
+	}
 	if tr.ssIndex > 0 {
 		if len(c.cur.recovers) == 0 || c.cur.recovers[len(c.cur.recovers)-1].Index != tr.ssIndex {
 			vfhelp.Fail(t, "twins-snapshot-not-recovered", "%s variant: snapshot %d was not recovered by C (recovers %v, skipped %v)",
@@ -278,6 +294,25 @@ func runTwins(t *rapid.T) *twinRun {
 			c.add(ents[tr.feedFrom-1 : hi])
 		}
 		c.run()
+	}
+	if tr.m > atRecover && rapid.Bool().Draw(t, "cSaves") {
+		// C takes a snapshot of its own on the way (for an on-disk SM possibly
+		// while it is still re-reading entries its state machine already has)
+		tr.cSaveAt = uint64(rapid.IntRange(int(atRecover)+1, int(tr.m)).Draw(t, "cSaveAt"))
+		hold := rapid.Bool().Draw(t, "cSaveHold")
+		if c.pushed < tr.cSaveAt {
+			feedHold(t, c, ents, tr.cSaveAt, "cs", hold)
+		}
+		before := len(c.saves)
+		c.addSave(rsm.SSRequest{})
+		c.run()
+		if len(c.saves) == before {
+			tr.cSaveAt = 0
+		} else if got := c.saves[len(c.saves)-1].Index; got < tr.cSaveAt {
+			vfhelp.Fail(t, "twins-second-snapshot-index", "C asked for a snapshot with %d queued, got one at %d", tr.cSaveAt, got)
+		} else {
+			tr.cSaveAt = got
+		}
 	}
 	feedTo(t, c, ents, tr.m, "c")
 	tr.viewC[tr.m] = c.view()
@@ -367,7 +402,7 @@ func (tr *twinRun) retryWindowCut() (cached, acked, other int) {
 
 func (tr *twinRun) canon() []byte {
 	var b bytes.Buffer
-	fmt.Fprintf(&b, "%t|%v/%d/%v/%v/%t|%s|k=%d m=%d %s lag=%d from=%d open=%d raced=%d", tr.secondRestart, tr.kind, tr.limit,
+	fmt.Fprintf(&b, "%d%t%t|%v/%d/%v/%v/%t|%s|k=%d m=%d %s lag=%d from=%d open=%d raced=%d", tr.cSaveAt, tr.secondRestart, tr.lagRestart, tr.kind, tr.limit,
 		tr.env.cfg.SnapshotCompressionType, tr.env.cfg.EntryCompressionType, tr.env.cfg.OrderedConfigChange,
 		canonStream(tr.meta), tr.k, tr.m, tr.variant, tr.lagAt, tr.feedFrom, tr.openIdx, tr.raced)
 	return b.Bytes()
@@ -390,6 +425,18 @@ func (tr *twinRun) labels() []string {
 	}
 	if tr.kind == kOnDisk && tr.variant == "restart" && tr.openIdx == tr.ssIndex {
 		l = append(l, "ondisk-open-index-equals-snapshot")
+	}
+	if tr.lagRestart {
+		l = append(l, "ondisk-stream-target-restarted-before")
+	}
+	if tr.cSaveAt > 0 {
+		l = append(l, "C-saved-again")
+		if tr.cSaveAt <= tr.openIdx {
+			l = append(l, "ondisk-saved-while-rereading-below-open-index")
+		}
+		if tr.secondRestart {
+			l = append(l, "C-recovered-own-second-snapshot")
+		}
 	}
 	if tr.secondRestart {
 		l = append(l, "C-restarted-again")
